@@ -2,6 +2,7 @@
 from vf.engine import assume, cover
 from vf.query import Q
 from vf import stubs
+from vf import stubs_c05 as R
 
 from ombott.request_pkg import body_mixin
 from ombott.request_pkg.errors import BodyParsingError, RequestError
@@ -33,6 +34,7 @@ OUTSIDE = ["encodings other than the enumerated shapes (chunk sizes <= 5, <= 3 c
 BUDGET_S = {"quick": 270, "thorough": 1150}
 
 stubs.install_body_io()
+R.install()          # body_mixin.BytesIO/TemporaryFile -> RopeIO (PyBytesIO that can also hold opaque payload)
 CRLF = b"\r\n"
 TE_SPELLINGS = ["chunked", "Chunked", "CHUNKED", "gzip, chunked", " chunked "]
 
@@ -293,6 +295,437 @@ def make_wsgi(shape):
     return q
 
 
+# ---------------------------------------------------------------- size families: opaque payload, sizes as solver integers
+# The whole path wsgi.input -> Ombott.__call__ -> Request.body -> handler with chunks whose SIZE is a solver integer:
+# the size line of one chunk of a skeleton is made of solver bytes (hex digits), its payload is an opaque range of that
+# many bytes (vf/stubs_c05.Rope: identity of a payload byte = its offset), max_memfile_size (= the read buffer and the
+# spill threshold) is a solver integer as well, the stream hands out whatever is asked for across chunk boundaries
+# (optionally with short reads).  Whatever sits between the stream and the handler therefore sees sizes on both sides of
+# every constant it may contain: 1 .. 2**17 crosses 4 KiB, 8 KiB (io.DEFAULT_BUFFER_SIZE), 64 KiB and the 100 KiB default
+# of max_memfile_size.  Cost does not depend on the sizes, only on how many reads a chunk takes (bounded by `reads`).
+NMAX = 2 ** 17
+BIG = 1 << 40
+HOLE = 5            # b"\r\n0\r\n" fits
+
+
+def hexval(h, pattern):
+    """value of the solver bytes `h` as hex digits.  pattern[i] fixes the class of digit i: 'd' 0-9, 'x' a-f, 'X' A-F,
+    'h' 0-9a-f, 'H' 0-9a-fA-F (every admitted class of a position is a fork of the search), 'z' the digit 0 or 1"""
+    v = 0
+    for i in range(len(pattern)):
+        c = h[i]
+        k = pattern[i]
+        if k == "z":
+            assume(48 <= c <= 49)
+            d = c - 48
+        elif k == "d":
+            assume(48 <= c <= 57)
+            d = c - 48
+        elif k == "x":
+            assume(97 <= c <= 102)
+            d = c - 87
+        elif k == "X":
+            assume(65 <= c <= 70)
+            d = c - 55
+        elif 48 <= c <= 57:
+            d = c - 48
+        elif 97 <= c <= 102:
+            d = c - 87
+        elif k == "H" and 65 <= c <= 70:
+            d = c - 55
+        else:
+            assume(False)
+        v = v * 16 + d
+    return v
+
+
+def build(spec, sized, after=None):
+    """spec["chunks"]: concrete sizes and placeholders "N" / "M"; sized[placeholder] = (digit bytes | None, size,
+    (hole bytes, hole offset) | None); `after` = 2 bytes to put after the data of chunk "N" instead of CRLF.
+    -> (stream segments, length of the core = up to and including the last-chunk line, payload segments)"""
+    ext, style = spec["ext"], spec["style"]
+    segs, off, core, payload = [], 0, 0, []
+    for c in spec["chunks"]:
+        hole = None
+        if isinstance(c, str):
+            h, size, hole = sized[c]
+            if h is None:
+                ln = size_line(size, style, ext)
+                segs.append(R.F(ln, len(ln)))
+                core = core + len(ln)
+            else:
+                W = len(spec["pattern"])
+                for i in range(W):
+                    segs.append(R.F(h[i:i + 1], 1))
+                tail = ext + CRLF
+                segs.append(R.F(tail, len(tail)))
+                core = core + W + len(tail)
+        else:
+            ln = size_line(c, style, ext)
+            segs.append(R.F(ln, len(ln)))
+            core = core + len(ln)
+            size = c
+        if hole is None:
+            data = [R.P(off, size)]
+        else:
+            hb, a = hole
+            data = [R.P(off, a), R.H(hb, HOLE, off + a), R.P(off + a + HOLE, size - a - HOLE)]
+        segs += data
+        payload += data
+        segs.append(R.F(after if (after is not None and c == "N") else CRLF, 2))
+        off = off + size
+        core = core + size + 2
+    last = size_line(0, style, ext)
+    segs.append(R.F(last, len(last)))
+    core = core + len(last)
+    tail = spec["trailer"] + CRLF
+    segs.append(R.F(tail, len(tail)))
+    return segs, core, payload
+
+
+def check_body(body, payload):
+    """None when `body` (what Request.body.read() gave) is exactly the payload.  Opaque payload is compared by offset,
+    real bytes by content."""
+    at = 0
+    want = None
+    for p in R.pieces(body):
+        if p[0] == "p":
+            if p[1] != at:
+                return "payload bytes out of order: offset %r delivered where offset %r belongs" % (p[1], at)
+            at = at + p[2]
+        else:
+            if want is None:
+                want = R.concat(payload)
+            n = len(p[1])
+            if at + n > len(want) or want[at:at + n] != p[1]:
+                return "bytes %r delivered at offset %r are not the payload sent there" % (p[1], at)
+            at = at + n
+    total = 0
+    for s in payload:
+        total = total + s.n
+    if at != total:
+        return "body has %r bytes, the chunks carry %r" % (at, total)
+    return None
+
+
+def new_app(b):
+    import ombott
+    app = ombott.Ombott({"max_memfile_size": b})
+    seen = []
+
+    @app.route("/u", method="POST")
+    def h():
+        seen.append(app.request.body.read())
+        return "ok"
+    return app, seen
+
+
+def post(app, stream):
+    """one chunked POST through Ombott.__call__ -> (3-digit status, number of start_response calls, wsgi.errors writes)"""
+    errs = []
+    env = {"REQUEST_METHOD": "POST", "PATH_INFO": "/u", "wsgi.input": stream, "HTTP_TRANSFER_ENCODING": "chunked",
+           "wsgi.errors": type("E", (), {"write": staticmethod(errs.append)}), "SERVER_NAME": "h",
+           "SERVER_PORT": "80", "wsgi.url_scheme": "http"}
+    got = []
+    b"".join(app(env, lambda st, hd, ei=None: got.append(st)))
+    return (got[0][:3] if got else ""), len(got), errs
+
+
+def judge_exact(code, calls, errs, seen, payload):
+    if calls != 1:
+        return "start_response called %d times" % calls
+    if code != "200" or len(seen) != 1:
+        return "legal chunked encoding answered %s" % code
+    bad = check_body(seen[0], payload)
+    if bad:
+        return bad
+    if errs:
+        return "traceback written to wsgi.errors"
+    return None
+
+
+def judge_cut(code, calls, errs):
+    if calls != 1:
+        return "start_response called %d times" % calls
+    if not ("400" <= code <= "499"):
+        return "answered %s, a client error (4xx) is due" % code
+    if errs:
+        return "traceback written to wsgi.errors"
+    return None
+
+
+def _sizes(n, b, reads):
+    assume(1 <= n <= NMAX)
+    assume(n <= reads * b)
+    if n > b:
+        cover("chunk>buffer")
+    if n > 8192:
+        cover("chunk>8K")
+    if n > 65536:
+        cover("chunk>64K")
+
+
+def make_size_exact(spec, bmin, bmax, nfrag, reads=3, hole=False, second=False):
+    """one (two with `second`) chunk of solver size n (m), buffer b solver integer, n <= reads*b; nfrag short reads
+    (solver lengths >= 1) from the first read of that chunk on; with `hole` HOLE payload bytes at solver offset `a` of the
+    chunk are solver bytes instead of opaque ones"""
+    pattern = spec["pattern"]
+    before = spec["chunks"].index("N")     # the chunks before the solver-sized one are read whole
+
+    def q(h: bytes, b: int, f1: int, f2: int, hb: bytes, a: int, h2: bytes):
+        assume(len(h) == len(pattern))
+        n = hexval(h, pattern)
+        assume(bmin <= b <= bmax)
+        _sizes(n, b, reads)
+        frags = [f1, f2][:nfrag]
+        for f in frags:
+            assume(1 <= f)
+        frags = [BIG] * before + frags
+        hh = None
+        if hole:
+            assume(len(hb) == HOLE)
+            assume(1 <= a)
+            assume(a + HOLE + 1 <= n)
+            hh = (hb, a)
+        sized = {"N": (h, n, hh)}
+        if second:
+            assume(len(h2) == len(pattern))
+            m = hexval(h2, pattern)
+            _sizes(m, b, reads)
+            sized["M"] = (h2, m, None)
+        segs, core, payload = build(spec, sized)
+        s = R.RopeStream(segs, None, frags)
+        app, seen = new_app(b)
+        code, calls, errs = post(app, s)
+        bad = judge_exact(code, calls, errs, seen, payload)
+        if bad:
+            return "chunk of %r bytes, buffer %r, short reads %r%s: %s" % (
+                n, b, frags[before:], (", payload[%r:%r] = %r" % (a, a + HOLE, hb)) if hole else "", bad)
+        return None
+    return q
+
+
+def make_size_truncate(spec, bmin, bmax, reads=3, hole=False):
+    """as make_size_exact (no short reads), the stream ends after k bytes, k < core (solver integer)"""
+    pattern = spec["pattern"]
+
+    def q(h: bytes, b: int, k: int, hb: bytes, a: int):
+        assume(len(h) == len(pattern))
+        n = hexval(h, pattern)
+        assume(bmin <= b <= bmax)
+        _sizes(n, b, reads)
+        hh = None
+        if hole:
+            assume(len(hb) == HOLE)
+            assume(1 <= a)
+            assume(a + HOLE + 1 <= n)
+            hh = (hb, a)
+        segs, core, payload = build(spec, {"N": (h, n, hh)})
+        assume(0 <= k < core)
+        s = R.RopeStream(segs, k)
+        app, seen = new_app(b)
+        code, calls, errs = post(app, s)
+        bad = judge_cut(code, calls, errs)
+        if bad:
+            return "encoding with a chunk of %r bytes (buffer %r) cut after %r of %r bytes%s: %s" % (
+                n, b, k, core, (", payload[%r:%r] = %r" % (a, a + HOLE, hb)) if hole else "", bad)
+        cover("rejected")
+        return None
+    return q
+
+
+def make_size_crlf(spec, bmin, bmax, reads=2):
+    """as make_size_exact (no short reads), one of the two bytes that follow the data of the solver-sized chunk is
+    replaced by any other value: a chunk whose data is not followed by CRLF must be refused"""
+    pattern = spec["pattern"]
+
+    def q(h: bytes, b: int, v: int, second: bool):
+        assume(len(h) == len(pattern))
+        n = hexval(h, pattern)
+        assume(bmin <= b <= bmax)
+        _sizes(n, b, reads)
+        assume(0 <= v <= 255)
+        if second:
+            assume(v != 10)
+            after = b"\r" + bytes([v])
+        else:
+            assume(v != 13)
+            after = bytes([v]) + b"\n"
+        segs, core, payload = build(spec, {"N": (h, n, None)}, after)
+        app, seen = new_app(b)
+        code, calls, errs = post(app, R.RopeStream(segs))
+        bad = judge_cut(code, calls, errs)
+        if bad:
+            return "data of a chunk of %r bytes (buffer %r) followed by %r instead of CRLF: %s" % (n, b, after, bad)
+        cover("rejected")
+        return None
+    return q
+
+
+def make_size_again(spec, first_sizes, bmin, bmax, reads=2):
+    """two requests to ONE application: a concrete big one (size picked from `first_sizes`; complete or cut inside its
+    data), then a solver-sized one that must be decoded exactly - state kept between requests would show"""
+    pattern = spec["pattern"]
+
+    def q(si: int, cut: bool, h: bytes, b: int):
+        assume(0 <= si < len(first_sizes))
+        c = first_sizes[si]
+        assume(len(h) == len(pattern))
+        n = hexval(h, pattern)
+        assume(bmin <= b <= bmax)
+        assume(c <= 2 * b)
+        _sizes(n, b, reads)
+        app, seen = new_app(b)
+        segs, core, payload = build(spec, {"N": (None, c, None)})
+        if cut:
+            code, calls, errs = post(app, R.RopeStream(segs, core - 9))
+            bad = judge_cut(code, calls, errs)
+        else:
+            code, calls, errs = post(app, R.RopeStream(segs))
+            bad = judge_exact(code, calls, errs, seen, payload)
+        if bad:
+            return "first request (chunk of %r bytes, buffer %r, cut=%r): %s" % (c, b, cut, bad)
+        del seen[:]
+        segs, core, payload = build(spec, {"N": (h, n, None)})
+        code, calls, errs = post(app, R.RopeStream(segs))
+        bad = judge_exact(code, calls, errs, seen, payload)
+        if bad:
+            return "second request (chunk of %r bytes, buffer %r) after a %s one with a chunk of %r bytes: %s" % (
+                n, b, "cut" if cut else "complete", c, bad)
+        cover("second-ok")
+        return None
+    return q
+
+
+# concrete sizes around powers of two / the default buffer (their size lines have letter digits, upper case, leading
+# zeros - spellings the solver-digit patterns of the quick tier leave out), many reads per chunk, solver short reads
+def make_conc(spec, sizes, buffers, mode):
+    before = spec["chunks"].index("N")
+
+    def q(si: int, bi: int, f1: int, f2: int, k: int):
+        assume(0 <= si < len(sizes))
+        assume(0 <= bi < len(buffers))
+        c, b = sizes[si], buffers[bi]
+        assume(c <= 16 * b)
+        assume(1 <= f1)
+        assume(1 <= f2)
+        segs, core, payload = build(spec, {"N": (None, c, None)})
+        app, seen = new_app(b)
+        if mode == "exact":
+            frags = [BIG] * before + [f1, f2]
+            code, calls, errs = post(app, R.RopeStream(segs, None, frags))
+            bad = judge_exact(code, calls, errs, seen, payload)
+            if bad:
+                return "chunk of %r bytes, buffer %r, short reads %r: %s" % (c, b, [f1, f2], bad)
+            if c > b:
+                cover("chunk>buffer")
+            return None
+        assume(0 <= k < core)
+        code, calls, errs = post(app, R.RopeStream(segs, k))
+        bad = judge_cut(code, calls, errs)
+        if bad:
+            return "encoding with a chunk of %r bytes (buffer %r) cut after %r of %r bytes: %s" % (c, b, k, core, bad)
+        cover("rejected")
+        return None
+    return q
+
+
+SIZE_SPECS = {
+    "mid": dict(chunks=[2, "N", 1], pattern="zdddd", ext=b"", style="lower", trailer=b""),
+    "first": dict(chunks=["N", 3], pattern="zdddd", ext=b";e=1", style="lower", trailer=b"T: 1\r\n"),
+    "only": dict(chunks=["N"], pattern="zdddd", ext=b"", style="lower", trailer=b""),
+    "two": dict(chunks=["N", 1, "M"], pattern="zdddd", ext=b"", style="lower", trailer=b""),
+}
+CONC_SPECS = {
+    "up": dict(chunks=[3, "N", 2], ext=b"", style="upper", trailer=b""),
+    "zeros": dict(chunks=["N", 9000], ext=b";x=y", style="zeros", trailer=b"T: 1\r\n"),
+}
+CONC_SIZES = [4095, 4096, 4097, 8191, 8192, 8193, 65535, 65536, 65537, 102399, 102400, 102401]
+CONC_BUFFERS = [1024, 8192, 102400]
+PATTERN_TEXT = {"z": "0-1", "d": "0-9", "x": "a-f", "X": "A-F", "h": "0-9a-f", "H": "0-9a-fA-F"}
+
+
+def _with(spec, pattern):
+    sp = dict(spec)
+    sp["pattern"] = pattern
+    return sp
+
+
+def _pat(pattern):
+    return "size line = %d solver bytes, digit classes %s" % (len(pattern), "|".join(PATTERN_TEXT[c] for c in pattern))
+
+
+def size_queries(tier):
+    T = tier == "thorough"
+    out = []
+    lo, hi = 16, NMAX
+    btxt = "max_memfile_size b solver integer in [%d, %d]" % (lo, hi)
+
+    def desc(sp, reads):
+        return ("POST through Ombott.__call__, handler reads Request.body; chunks %r ('N','M' = solver size 1..%d, n <= %d*b), "
+                "%s, ext %r, trailer %r; %s; payload opaque (compared by offset)" % (
+                    sp["chunks"], NMAX, reads, _pat(sp["pattern"]), sp["ext"], sp["trailer"], btxt))
+    exact = [("mid", "zdddd", 1, 3), ("first", "zdddd", 1, 3), ("only", "zdddd", 1, 3), ("mid", "zdxxx", 1, 2), ("first", "zxxxx", 0, 2)]
+    if T:
+        exact += [("mid", "zhhhh", 1, 3), ("only", "zHHHH", 0, 2), ("first", "zdddd", 2, 5), ("only", "zdXXd", 2, 3)]
+    for tag, pattern, nfrag, reads in exact:
+        sp = _with(SIZE_SPECS[tag], pattern)
+        out.append(Q("size-exact/%s/%s/f%dr%d" % (tag, pattern, nfrag, reads), make_size_exact(sp, lo, hi, nfrag, reads),
+                     desc(sp, reads) + "; %d short reads of solver length >= 1 inside the solver-sized chunk; body must be payload "
+                     "bytes 0..total in order, status 200" % nfrag,
+                     timeout=120 if not T else 900, expect_cover=["chunk>buffer", "chunk>8K", "chunk>64K"],
+                     family="size-exact", config=repr(sp)))
+    trunc = [("mid", "zdddd", 2)]
+    if T:
+        trunc += [("first", "zdddd", 3), ("only", "zhhhh", 3), ("mid", "zdxxx", 3)]
+    for tag, pattern, reads in trunc:
+        sp = _with(SIZE_SPECS[tag], pattern)
+        out.append(Q("size-trunc/%s/%s/r%d" % (tag, pattern, reads), make_size_truncate(sp, lo, hi, reads),
+                     desc(sp, reads) + "; stream ends after k bytes, every k < core (solver integer): 4xx",
+                     timeout=240 if not T else 900, expect_cover=["rejected", "chunk>8K", "chunk>64K"],
+                     family="size-trunc", config=repr(sp)))
+    for tag, pattern in [("mid", "zdddd")] + ([("first", "zhhhh"), ("only", "zdddd")] if T else []):
+        sp = _with(SIZE_SPECS[tag], pattern)
+        out.append(Q("size-crlf/%s/%s" % (tag, pattern), make_size_crlf(sp, lo, hi, 2),
+                     desc(sp, 2) + "; one of the two bytes after the data of the solver-sized chunk replaced by any other "
+                     "value (solver byte): 4xx", timeout=150 if not T else 600,
+                     expect_cover=["rejected", "chunk>buffer", "chunk>8K", "chunk>64K"], family="size-crlf", config=repr(sp)))
+    # a window of solver bytes inside the opaque payload: framing look-alikes at any offset of a big chunk
+    sp = _with(SIZE_SPECS["mid"], "zdddd")
+    out.append(Q("size-hole-exact/mid/zdddd", make_size_exact(sp, 8192 if not T else lo, hi, 0, 2, hole=True),
+                 desc(sp, 2) + "%s; payload[a:a+%d] of the solver-sized chunk = solver bytes, a solver integer" % (
+                     " (here b >= 8192)" if not T else "", HOLE), timeout=120 if not T else 900,
+                 expect_cover=["chunk>buffer", "chunk>8K"], family="size-hole", config=repr(sp)))
+    if T:
+        out.append(Q("size-hole-trunc/mid/zdddd", make_size_truncate(sp, lo, hi, 2, hole=True),
+                     desc(sp, 2) + "; payload[a:a+%d] = solver bytes; stream ends after k < core bytes: 4xx" % HOLE,
+                     timeout=900, expect_cover=["rejected", "chunk>8K"], family="size-hole", config=repr(sp)))
+    if T:
+        sp = _with(SIZE_SPECS["two"], "zdddd")
+        out.append(Q("size-exact/two/zdddd/f0r2", make_size_exact(sp, lo, hi, 0, 2, second=True),
+                     desc(sp, 2) + "; two solver-sized chunks", timeout=900,
+                     expect_cover=["chunk>buffer", "chunk>8K"], family="size-exact", config=repr(sp)))
+    sp = _with(SIZE_SPECS["only"], "zdddd")
+    firsts = [100, 9000, 70000]
+    out.append(Q("size-again/only/zdddd", make_size_again(sp, firsts, lo, hi),
+                 "two POSTs to one application: first a chunk of one of %r bytes (complete, or cut 9 bytes before the end of "
+                 "the core), then " % (firsts,) + desc(sp, 2) + " (first chunk <= 2*b)", timeout=240 if not T else 600,
+                 expect_cover=["second-ok", "chunk>8K"], family="size-again", config=repr(sp)))
+    groups = [("up", [8191, 8193, 102401])] if not T else [("up", CONC_SIZES), ("zeros", CONC_SIZES)]
+    for tag, sizes in groups:
+        sp = CONC_SPECS[tag]
+        txt = ("POST through Ombott.__call__; chunks %r with N one of %r, size lines style %s ext %r, trailer %r; "
+               "max_memfile_size one of %r (N <= 16*b); payload opaque" % (
+                   sp["chunks"], sizes, sp["style"], sp["ext"], sp["trailer"], CONC_BUFFERS))
+        out.append(Q("conc-exact/%s" % tag, make_conc(sp, sizes, CONC_BUFFERS, "exact"),
+                     txt + "; first two reads inside N are short (solver lengths >= 1)", timeout=240 if not T else 900,
+                     expect_cover=["chunk>buffer"], family="conc", config=repr((sp, sizes))))
+        out.append(Q("conc-trunc/%s" % tag, make_conc(sp, sizes, CONC_BUFFERS, "trunc"),
+                     txt + "; stream ends after k bytes, every k < core (solver integer): 4xx", timeout=300 if not T else 900,
+                     expect_cover=["rejected"], family="conc", config=repr((sp, sizes))))
+    return out
+
+
 def queries(tier):
     out = []
     T = tier == "thorough"
@@ -315,6 +748,7 @@ def queries(tier):
     for i, sh in list(enumerate(shapes(tier)))[:2 if not T else 4]:
         out.append(Q("wsgi/s%d" % i, make_wsgi(sh), "Ombott.__call__: POST handler reading Request.body, stream cut at symbolic k: 400 iff cut inside the encoding; Transfer-Encoding spelled as one of %r" % (TE_SPELLINGS,),
                      timeout=120 if not T else 300, expect_cover=["400", "200"], family="wsgi", config=repr(sh)))
+    out += size_queries(tier)
     return out
 
 
